@@ -657,6 +657,18 @@ func (peer *peer) updatePrefixLimitConfig(conf *oc.Neighbor, c []oc.AfiSafi) (bo
 	return reachLimit, nil
 }
 
+// withdrawReplacedByRejected returns the withdrawal to propagate when a
+// received route is rejected by the loop checks: the rejected route replaces,
+// in the Adj-RIB-In, any route the peer announced before for the same prefix
+// and path identifier, so that older route must leave the Loc-RIB as well
+// (RFC 4271 9.1.2: a route with an AS loop is excluded from route selection,
+// and an UPDATE implicitly withdraws the previously advertised route).
+func withdrawReplacedByRejected(path *table.Path) *table.Path {
+	w := path.Clone(true)
+	w.SetDropped(true)
+	return w
+}
+
 func (peer *peer) handleUpdate(e *fsmMsg) ([]*table.Path, []bgp.Family, bool) {
 	m := e.MsgData.(*bgp.BGPMessage)
 	update := m.Body.(*bgp.BGPUpdate)
@@ -702,6 +714,7 @@ func (peer *peer) handleUpdate(e *fsmMsg) ([]*table.Path, []bgp.Family, bool) {
 
 				if hasOwnASLoop(localAS, allowOwnAS, aspath, confedID, confedEnabled) {
 					path.SetRejected(true)
+					paths = append(paths, withdrawReplacedByRejected(path))
 					continue
 				}
 			}
@@ -719,6 +732,7 @@ func (peer *peer) handleUpdate(e *fsmMsg) ([]*table.Path, []bgp.Family, bool) {
 						slog.String("Data", path.String()))
 
 					path.SetRejected(true)
+					paths = append(paths, withdrawReplacedByRejected(path))
 					continue
 				}
 			}
